@@ -79,7 +79,7 @@ def exc_is(cls, target):
 
 
 class Obligation:
-    __slots__ = ("oid", "kind", "assumptions", "goal", "where", "note", "path", "values")
+    __slots__ = ("oid", "kind", "assumptions", "goal", "where", "note", "path", "values", "inputs")
 
     def __init__(self, oid, kind, assumptions, goal, where, note="", path=(), values=None):
         self.oid = oid
@@ -90,6 +90,7 @@ class Obligation:
         self.note = note
         self.path = tuple(path)
         self.values = values or {}
+        self.inputs = None
 
 
 class PathCtx:
@@ -106,6 +107,8 @@ class PathCtx:
         self.names = itertools.count()
         self.stats = {"feas_checks": 0}
         self.ghost = {}
+        self.values = {}
+        self.inputs = None
 
     # fresh symbols are numbered per path in execution order, so that the same
     # program point gets the same symbol on every path sharing the prefix
@@ -166,11 +169,13 @@ class PathCtx:
         goal = simp(goal) if is_z3(goal) else goal
         if goal is True:
             # trivially true instances are still counted (as discharged by the encoder)
-            self.sink.append(Obligation(oid, kind, [], True, where, note, self.decisions, values))
+            self.sink.append(Obligation(oid, kind, [], True, where, note, self.decisions, values or self.values))
+            self.sink[-1].inputs = self.inputs
             return
         if goal is False:
             goal = z3.BoolVal(False)
-        self.sink.append(Obligation(oid, kind, self.pc, goal, where, note, self.decisions, values))
+        self.sink.append(Obligation(oid, kind, self.pc, goal, where, note, self.decisions, values or self.values))
+        self.sink[-1].inputs = self.inputs
 
 
 # --------------------------------------------------------------------------
@@ -231,6 +236,14 @@ class Frame:
                     k = "return"
                 elif isinstance(ch, (ast.ListComp, ast.GeneratorExp, ast.SetComp, ast.DictComp)):
                     k = "comp"
+                elif isinstance(ch, ast.BinOp):
+                    k = "binop"
+                elif isinstance(ch, ast.Compare):
+                    k = "cmp"
+                elif isinstance(ch, ast.Attribute):
+                    k = "attr"
+                elif isinstance(ch, (ast.Assign, ast.AugAssign, ast.AnnAssign)):
+                    k = "assign"
                 if k:
                     self.node_ord[id(ch)] = (k, counters.get(k, 0))
                     counters[k] = counters.get(k, 0) + 1
@@ -812,6 +825,8 @@ class Interp:
             if isinstance(a, str) and isinstance(b, str) and name == "add":
                 return a + b
             return Opaque("str", ms)
+        if a is None or b is None:
+            self.raise_("TypeError", node, implicit="binop on None")
         seqa = isinstance(a, (SymSeq, tuple, list))
         seqb = isinstance(b, (SymSeq, tuple, list))
         if name == "add" and seqa and seqb:
